@@ -698,6 +698,31 @@ func (s *Sim) onPublish(p *PubRecord) {
 			s.violate("C16", "event-without-content", fmt.Sprintf("%s: COMMITTED_TRANSACTIONS without transactions", name))
 			return
 		}
+		var merged []*Entry
+		defer func() {
+			if len(merged) < 2 {
+				return
+			}
+			sort.Slice(merged, func(i, j int) bool { return merged[i].Idx < merged[j].Idx })
+			want := map[string]map[string]string{}
+			for _, e := range merged {
+				for acct, md := range e.AcctMeta {
+					if want[acct] == nil {
+						want[acct] = map[string]string{}
+					}
+					for k, v := range md {
+						want[acct][k] = v
+					}
+				}
+			}
+			am := map[string]map[string]string{}
+			for k, v := range asMap(pl["accountMetadata"]) {
+				am[k] = metaFromAny(v)
+			}
+			if !acctMetaEqual(am, want) {
+				s.violate("C16", "event-differs-from-entry", fmt.Sprintf("%s: COMMITTED_TRANSACTIONS announcing %d transactions carries account metadata %v, their entries merged in log order give %v", name, len(merged), am, want), "type=COMMITTED_TRANSACTIONS", "field=accountMetadata")
+			}
+		}()
 		for _, t := range txs {
 			tx := parseTx(t)
 			if tx == nil {
@@ -718,15 +743,9 @@ func (s *Sim) onPublish(p *PubRecord) {
 				am[k] = metaFromAny(v)
 			}
 			if len(txs) > 1 {
-				// an event that announces several transactions carries the account metadata of all
-				// of them: each entry's must be in it
-				for acct, md := range e.AcctMeta {
-					for k, v := range md {
-						if am[acct][k] != v {
-							s.violate("C16", "event-differs-from-entry", fmt.Sprintf("%s: COMMITTED_TRANSACTIONS for transaction %s lacks account metadata %s.%s=%q of entry %d", name, tx.ID, acct, k, v, e.Idx), "type=COMMITTED_TRANSACTIONS", "field=accountMetadata")
-						}
-					}
-				}
+				// an event that announces several transactions carries ONE account-metadata map: the
+				// entries' maps merged in log order (a later entry overrides an earlier one)
+				merged = append(merged, e)
 			} else if !acctMetaEqual(am, e.AcctMeta) {
 				s.violate("C16", "event-differs-from-entry", fmt.Sprintf("%s: COMMITTED_TRANSACTIONS for transaction %s carries account metadata %v, entry %d has %v", name, tx.ID, am, e.Idx, e.AcctMeta), "type=COMMITTED_TRANSACTIONS", "field=accountMetadata")
 			}
